@@ -44,14 +44,8 @@ def family(tier: str) -> list:
     gs += extra
     out = []
     for g in gs:
-        f = families.features(g)
-        if "nullable_under_star_plus" in f:
-            continue  # diverges (C06 known finding); excluded from this family
-        out.append((g, ["a", "b", "c"], 5 if tier == "quick" else 7))
+        out.append((g, ["a", "b", "c"], 5 if tier == "quick" else 6))
     for g in families.binary_family(1):
-        f = families.features(g)
-        if "nullable_under_star_plus" in f:
-            continue
         out.append((g, [0x00, 0x01, 0x61, 0xA5], 3 if tier == "quick" else 4))
     extra_bin = [
         # text literals / text regexes read from bytes input, with cuts inside them
@@ -245,4 +239,4 @@ def run(ctx: Ctx) -> None:
     if agg["skipped"]:
         ctx.cap(f"{agg['skipped']} schedules skipped (admission/time budget)")
     ctx.assumptions += ["RefGrammar viable-prefix matcher (regex partial matching via the `regex` module) is trusted for the can_continue oracle",
-                        "grammars with an empty-deriving body under */+ are excluded (they diverge: C06 known finding)"]
+                        ]
